@@ -40,7 +40,51 @@ func parse(ctx *core.Ctx, in string, df string) (e *expr.Expression, err error, 
 			e, err = lucene.Parse(in)
 		}
 	})
+	// a returned tree belongs to the caller: the one returned 32 parses ago is written over now,
+	// as a caller might; if the library still holds on to any of its nodes (a memoised leaf, a
+	// cached tree), later results carry the scribble into the oracles
+	if ok && e != nil {
+		old := parseRing[parseRingPos%len(parseRing)]
+		parseRing[parseRingPos%len(parseRing)] = e
+		parseRingPos++
+		if old != nil {
+			scribble(old, 0)
+		}
+	}
 	return
+}
+
+var parseRing [32]*expr.Expression
+var parseRingPos int
+
+func scribble(x any, depth int) {
+	if depth > 64 {
+		return
+	}
+	switch v := x.(type) {
+	case *expr.Expression:
+		if v == nil {
+			return
+		}
+		switch v.Op {
+		case expr.Literal, expr.Wild, expr.Regexp:
+			v.Left = "\x00scribbled by the caller"
+			return
+		}
+		scribble(v.Left, depth+1)
+		scribble(v.Right, depth+1)
+		v.Op = expr.Or
+	case []*expr.Expression:
+		for _, e := range v {
+			scribble(e, depth+1)
+		}
+	case *expr.RangeBoundary:
+		if v != nil {
+			scribble(v.Min, depth+1)
+			scribble(v.Max, depth+1)
+			v.Inclusive = !v.Inclusive
+		}
+	}
 }
 
 func init() { core.BeforeCase = perturb }
